@@ -46,6 +46,7 @@ struct Case {
   std::vector<SessRec> sess;
   std::vector<Sub> subs;
   int events_connected = 0, events_failed = 0;
+  int fail_send = -1;                   // index of the one datagram send of the library that fails at the socket (-1: none)
   unsigned same_mids = 0;               // 0: no; 1..3: the other sessions' message id counters start at session 0's + (same_mids - 1)
   uint64_t connected_t = UINT64_MAX;   // when libcoap declared the session connected (peer's CSM, or its own CSM time-out)
 } *G = nullptr;
@@ -104,6 +105,9 @@ int verif_case(const uint8_t *tape, size_t tlen, Info *info) {
   coap_register_response_handler(ctx, resp_handler);
   coap_register_event_handler(ctx, event_handler);
   cs.same_mids = tlen > 0 && tape[tlen - 1] < 100 ? 1 + tape[tlen - 1] % 3 : 0;
+  // (third and second last tape byte, longer tapes) one datagram send fails at the socket (ENOBUFS): a message whose very first write fails is refused by
+  // coap_send() or - when it came out of the hold queue - stays queued and goes out with the next retransmission; order and the NSTART bound hold
+  if (!tcp && tlen >= 48 && tape[tlen - 2] < 90) { cs.fail_send = tape[tlen - 3] % 24; w.send_fails = [&cs](unsigned i) { return (int)i == cs.fail_send; }; info->label("one-socket-send-fails"); }
   int v = tcp ? run_tcp(t, info, cs, w, ctx) : run_udp(t, info, cs, w, ctx);
   w.remove_context(ctx);
   coap_free_context(ctx);
